@@ -23,7 +23,7 @@ CLAIMED = {
    note="Assumed (the documented interfaces): ParserFunction/to_stan/to_node/docutils walk raise only Exception subclasses; import_module raises only ImportError; fallback callables do not raise; to_node raises only NotImplementedError for get_toc (explicit precondition `not fragile_node`, so format_toc is NOT under contract); reportErrors/System.msg verified under C16. Termination, the parsers themselves (epytext, docutils, napoleon), format_docstring's field handling, flattening to HTML, 'no other object is affected' and 'docutils-recovered problems are reported' are decided only by the bounded native harness (fragment fuzzing x 5 docformats x process-types x 8 object kinds, 60 s per docstring). Known finding KF-C08-lone-surrogate.",
    ref='6 C08'),
  'C02': dict(
-   text="Deductive, over the heap model of the object tree with ghost registry views: Documentable.fullName = the dotted path from the root (recursive spec fn_spec, acyclic parent chain as precondition), System.addObject (afterwards allobjects[fullName(obj)] is obj, obj is in its parent's contents under its own name or in rootobjects, other registry keys untouched except through handleDuplicate), Function.setup, _handle_reparenting_pre/_post (recursive, frame: only keys with the moved object's prefix change; every node of the subtree is deregistered / registered under its current qualified name) and Documentable.reparent (after the fix: registered under the new name, in the new parent's contents under new_name, gone from the old parent's contents, parentMod updated, an occupied target name handled as duplicate first).",
+   text="Deductive, over the heap model of the object tree with ghost registry views: Documentable.fullName = the dotted path from the root (recursive spec fn_spec, acyclic parent chain as precondition), System.addObject (afterwards allobjects[fullName(obj)] is obj, obj is in its parent's contents under its own name or in rootobjects, other registry keys untouched except through handleDuplicate), Function.setup, System._remove and _handle_reparenting_pre/_post (recursive, frame: only keys with the moved object's prefix change; every node of the subtree is deregistered / registered under its current qualified name) and Documentable.reparent (after the fix: registered under the new name, in the new parent's contents under new_name, gone from the old parent's contents, parentMod updated, an occupied target name handled as duplicate first).",
    note="Assumed: System.handleDuplicate's contract (renames the displaced object and re-registers both), dict views. The registry/containment/parent/fullName/module/URL-uniqueness invariants over a whole built system (all ten clauses of the property, after real ASTBuilder runs including re-exports, duplicates, nested duplicates) are decided by the bounded native harness. Known findings KF-C02-summary-page-clash, KF-C02-nested-duplicate-key.",
    ref='6 C02'),
  'C07': dict(
